@@ -2,7 +2,7 @@ SPECIFICATION Spec
 CONSTANT MaxN = 4
 CONSTANT MinN = 1
 CONSTANT Places = {"Cpu", "Npu", "MemN", "MemC"}
-CONSTANT MultiOut = FALSE
+CONSTANT MultiOut = TRUE
 CONSTANT SinkSees = "all"
 CONSTANT AllowExtra = FALSE
 INVARIANT TypeOK
